@@ -11,3 +11,6 @@ import Eliot.Properties.C10
 #print axioms EJ.C10.no_partial_between_calls
 #print axioms EJ.C10.bytes_text_same
 #print axioms EJ.C10.line_faithful
+#print axioms EJ.C10.deep_nesting_refused
+#print axioms EJ.C10.deep_message_no_line
+#print axioms EJ.C10.encode_valid_json
